@@ -9,6 +9,7 @@ import (
 	"encoding/json"
 	"fmt"
 	"sort"
+	"strconv"
 	"strings"
 	"testing"
 	"time"
@@ -209,11 +210,14 @@ func c12StatusStr(st stakingtypes.BondStatus) string {
 
 type c12Act struct {
 	kind string
-	// pre actions: extjail extunjail jail setalive setmin schedule proposal setprev setlog
+	// pre actions: extjail extunjail jail setalive setmin schedule proposal genesis setprev setlog
 	// txs:         keepalive unjail delegate(full only, no line of its own)
 	// env:         envstatus envpower (mock only, no line of their own)
 	addr    []byte
 	ver     string
+	ver2    string // genesis: the scheduled requirement's version
+	hasCur  bool   // genesis: a current requirement is present
+	hasSch  bool   // genesis: a scheduled requirement is present
 	n       int64  // setalive: until; envpower/delegate: new power; setlog: duration
 	at      int64  // setlog: jailedAt (unix ns)
 	target  uint64 // schedule / proposal
@@ -240,6 +244,15 @@ func (a *c12Act) line(h int64, t time.Time) string {
 		return fmt.Sprintf("schedule %s %d", c12Hex([]byte(a.ver)), a.target)
 	case "proposal":
 		return fmt.Sprintf("proposal %d %s %d", h, c12Hex([]byte(a.ver)), a.target)
+	case "genesis":
+		cur, sch := "-", "-"
+		if a.hasCur {
+			cur = c12Hex([]byte(a.ver))
+		}
+		if a.hasSch {
+			sch = c12Hex([]byte(a.ver2))
+		}
+		return fmt.Sprintf("genesis %s %s %d", cur, sch, a.target)
 	case "setprev":
 		return "setprev " + c12Hex(a.blob)
 	case "proposalq":
@@ -510,10 +523,36 @@ func c12ExecPre(ctx sdk.Context, k valsetkeeper.Keeper, storeKey storetypes.Stor
 		a.res = c12Res(valset.NewValsetProposalHandler(k)(ctx, &valsettypes.SetPigeonRequirementsProposal{
 			Title: "t", Description: "d", MinVersion: a.ver, TargetBlockHeight: a.target,
 		}))
+	case "genesis":
+		a.res = c12InitGenesis(ctx, k, a)
 	default:
 		return false
 	}
 	return true
+}
+
+// c12InitGenesis runs the module's InitGenesis (chain start / re-import of an exported state) with the
+// given pigeon requirements on the current store. InitGenesis panics when a requirement is refused
+// (the chain would not start): nothing is kept then.
+func c12InitGenesis(ctx sdk.Context, k valsetkeeper.Keeper, a *c12Act) (res string) {
+	gs := valsettypes.GenesisState{Params: k.GetParams(ctx)}
+	if a.hasCur {
+		gs.PigeonRequirements = &valsettypes.PigeonRequirements{MinVersion: a.ver}
+	}
+	if a.hasSch {
+		gs.ScheduledPigeonRequirements = &valsettypes.ScheduledPigeonRequirements{
+			Requirements: &valsettypes.PigeonRequirements{MinVersion: a.ver2}, TargetBlockHeight: a.target,
+		}
+	}
+	cctx, commit := ctx.CacheContext()
+	defer func() {
+		if rec := recover(); rec != nil {
+			res = "rejected"
+		}
+	}()
+	valset.InitGenesis(cctx, k, gs)
+	commit()
+	return "ok"
 }
 
 func (m *c12Mock) block(step time.Duration, pre, txs, env []*c12Act) (int64, time.Time, c12Snap) {
@@ -592,6 +631,8 @@ type c12Runner struct {
 	prevUnj  map[string]bool // unjailed when the previous block updated the grace periods
 	tampered bool            // the snapshot blob was overwritten by a test hook in this block
 	nontriv  map[string]bool
+	hw       string // the highest minimum version observed so far in this world (semver order)
+	lastReq  string // the requirements (minimum + schedule) as last observed
 }
 
 func (w *c12Runner) op(line, out string) {
@@ -682,6 +723,75 @@ func (w *c12Runner) checkMin(before, after string, what string) {
 	}
 }
 
+// c12MinHist is the clause "that minimum never decreases" on two minimum-version strings observed in
+// this order (and: is the later one a version at all — an invalid minimum switches the gate off,
+// theorem invalid_minimum_voids_gate). The Lean driver evaluates the same on the model's order.
+func c12MinHist(earlier, later string) string {
+	out := "kept"
+	if semver.Compare(later, earlier) < 0 {
+		out = "decreased"
+	}
+	if semver.IsValid(later) {
+		return out + " valid"
+	}
+	return out + " invalid"
+}
+
+// observeReq evaluates the minimum-version clauses on every observed state of the requirements,
+// against the whole history of the world: the minimum in force is never below the HIGHEST minimum
+// that was in force before (theorem min_never_below_earlier), never below the built-in default and
+// always a valid version (min_version_valid), and a scheduled requirement is never lower than the
+// minimum in force (scheduled_never_lower, scheduled_valid).
+func (w *c12Runner) observeReq(s *c12Snap, what string) {
+	if w.hw == "" {
+		w.hw = c12DefaultMin
+	}
+	if req := s.req(); req != w.lastReq {
+		w.lastReq = req
+		verdict := c12MinHist(w.hw, s.min)
+		w.op(fmt.Sprintf("minhist %s %s", c12Hex([]byte(w.hw)), c12Hex([]byte(s.min))), verdict)
+		w.r.Stat("minhist." + verdict)
+		if verdict != "kept valid" {
+			w.hit("min_version_monotone", fmt.Sprintf("after %s the minimum version is %q, the minimum in force earlier was %q: %s", what, s.min, w.hw, verdict))
+		}
+		if s.sched != nil && semver.Compare(s.sched.ver, s.min) < 0 {
+			w.hit("min_version_monotone", fmt.Sprintf("after %s the scheduled minimum %q is lower than the minimum in force %q (or not a version)", what, s.sched.ver, s.min))
+		}
+	}
+	if semver.IsValid(s.min) && semver.Compare(s.min, w.hw) > 0 {
+		w.hw = s.min
+		w.r.Stat("min.raised")
+	}
+}
+
+// checkAccepted: an ACCEPTED change of the requirements carried only versions that are valid and not
+// lower than the minimum in force (lower_min_version_refused, invalid_min_version_refused,
+// genesis_lower_or_invalid_refused).
+func (w *c12Runner) checkAccepted(a *c12Act, min string) {
+	if a.res != "ok" {
+		return
+	}
+	var vers []string
+	if a.kind != "genesis" || a.hasCur {
+		vers = append(vers, a.ver)
+	}
+	if a.kind == "genesis" && a.hasSch {
+		vers = append(vers, a.ver2)
+	}
+	for _, v := range vers {
+		if semver.Compare(v, min) < 0 {
+			w.hit("min_version_monotone", fmt.Sprintf("%s accepted %q below the minimum %q", a.kind, v, min))
+		} else if semver.Compare(v, w.hw) < 0 || !semver.IsValid(v) {
+			w.hit("min_version_monotone", fmt.Sprintf("%s accepted %q, not a version or below the earlier minimum %q", a.kind, v, w.hw))
+		}
+		if !semver.IsValid(v) {
+			w.r.Stat("req.accepted.invalid")
+		} else {
+			w.r.Stat("req.accepted.valid")
+		}
+	}
+}
+
 func c12IsSweep(h int64) bool { return h > 50 && h%10 == 0 }
 
 func (w *c12Runner) runBlock(step time.Duration, pre, txs, env []*c12Act) {
@@ -729,15 +839,17 @@ func (w *c12Runner) runBlock(step time.Duration, pre, txs, env []*c12Act) {
 					}
 				}
 			}
-		case "setmin", "schedule", "proposal":
+		case "setmin", "schedule", "proposal", "genesis":
 			w.checkMin(cur.min, a.snap.min, a.kind)
-			if a.res == "ok" && semver.Compare(a.ver, cur.min) < 0 {
-				w.hit("min_version_monotone", fmt.Sprintf("%s accepted %q below the minimum %q", a.kind, a.ver, cur.min))
+			w.checkAccepted(a, cur.min)
+			if (!semver.IsValid(a.ver) && (a.kind != "genesis" || a.hasCur)) || (a.kind == "genesis" && a.hasSch && !semver.IsValid(a.ver2)) {
+				w.r.Stat("req.invalid." + a.res)
 			}
 		case "setprev":
 			w.tampered = true
 		}
 		cur = *a.snap
+		w.observeReq(a.snap, a.kind)
 	}
 	w.op(fmt.Sprintf("beginblock %d", h), "ok")
 	preJailed := map[string]bool{}
@@ -759,6 +871,12 @@ func (w *c12Runner) runBlock(step time.Duration, pre, txs, env []*c12Act) {
 				w.r.Stat("keepalive.old")
 				if a.res == "ok" {
 					w.hit("old_version_refused", fmt.Sprintf("keep-alive with %q accepted, minimum %q", a.ver, cur.min))
+				}
+			} else if w.hw != "" && semver.Compare(a.ver, w.hw) < 0 {
+				// older than a minimum that was in force EARLIER in this history (the minimum never decreases)
+				w.r.Stat("keepalive.old_vs_earlier")
+				if a.res == "ok" {
+					w.hit("old_version_refused", fmt.Sprintf("keep-alive with %q accepted although the minimum was %q earlier (now %q)", a.ver, w.hw, cur.min))
 				}
 			} else if known && semver.Compare(a.ver, post.min) >= 0 && a.res != "ok" {
 				w.hit("keepalive_accepted", fmt.Sprintf("keep-alive of validator %s with %q refused, minimum %q", c12Hex(a.addr), a.ver, post.min))
@@ -810,6 +928,7 @@ func (w *c12Runner) runBlock(step time.Duration, pre, txs, env []*c12Act) {
 	}
 	w.op(fmt.Sprintf("endblock %d %d", h, tn), post.dump()+" prev="+post.prevStr())
 	w.checkMin(before.min, post.min, "the block")
+	w.observeReq(&post, fmt.Sprintf("block %d", h))
 
 	// ----- monitors on the end block -----
 	sweep := c12IsSweep(h)
@@ -939,7 +1058,7 @@ var c12OldVersions = []string{"v0.0.1", "v1.0.0", "v1.11.2", "v1.11.3-rc1", "v1.
 
 func (w *c12Runner) version(min string) string {
 	r := w.r.Rng
-	switch r.Intn(10) {
+	switch r.Intn(14) {
 	case 0:
 		return c12BadVersions[r.Intn(len(c12BadVersions))]
 	case 1:
@@ -948,8 +1067,170 @@ func (w *c12Runner) version(min string) string {
 		return min
 	case 3, 4:
 		return c12RandVersion(w.r)
+	case 5:
+		return c12Above(w.r, min)
+	case 6:
+		return c12Below(w.r, min)
+	case 7, 8:
+		// a string that only LOOKS like a version at or above the minimum
+		return c12NearMiss(w.r, c12AtOrAbove(w.r, min))
 	default:
 		return c12GoodVersions[r.Intn(len(c12GoodVersions))]
+	}
+}
+
+// c12Triple: MAJOR, MINOR, PATCH of a valid version (small numbers only) and whether it has a
+// pre-release part.
+func c12Triple(v string) (t [3]int64, pre, ok bool) {
+	c := semver.Canonical(v)
+	if c == "" {
+		return t, false, false
+	}
+	core := strings.TrimPrefix(c, "v")
+	if i := strings.IndexAny(core, "-+"); i >= 0 {
+		pre = core[i] == '-'
+		core = core[:i]
+	}
+	parts := strings.Split(core, ".")
+	if len(parts) != 3 {
+		return t, false, false
+	}
+	for i, p := range parts {
+		n, err := strconv.ParseInt(p, 10, 64)
+		if err != nil || n > 1<<40 {
+			return t, false, false
+		}
+		t[i] = n
+	}
+	return t, pre, true
+}
+
+// c12Above: a valid version at or just above v in the semver order (next patch / minor / major, the
+// release of a pre-release, the short forms, build metadata = equal).
+func c12Above(r *Rec, v string) string {
+	t, pre, ok := c12Triple(v)
+	if !ok {
+		return c12GoodVersions[r.Rng.Intn(len(c12GoodVersions))]
+	}
+	switch r.Rng.Intn(9) {
+	case 0, 1:
+		return fmt.Sprintf("v%d.%d.%d", t[0], t[1], t[2]+1)
+	case 2:
+		return fmt.Sprintf("v%d.%d.0", t[0], t[1]+1)
+	case 3:
+		return fmt.Sprintf("v%d.0.0", t[0]+1)
+	case 4:
+		return fmt.Sprintf("v%d.%d", t[0], t[1]+1)
+	case 5:
+		return fmt.Sprintf("v%d", t[0]+1)
+	case 6:
+		if pre {
+			return fmt.Sprintf("v%d.%d.%d", t[0], t[1], t[2])
+		}
+		return fmt.Sprintf("v%d.%d.%d-rc1", t[0], t[1], t[2]+1)
+	case 7:
+		return fmt.Sprintf("v%d.%d.%d+b%d", t[0], t[1], t[2]+int64(r.Rng.Intn(2)), r.Rng.Intn(9))
+	default:
+		return fmt.Sprintf("v%d.%d.%d", t[0], t[1]+int64(r.Rng.Intn(3)), t[2]+1+int64(r.Rng.Intn(20)))
+	}
+}
+
+// c12Below: a valid version just below v (previous patch / minor / major, a pre-release of v itself).
+func c12Below(r *Rec, v string) string {
+	t, pre, ok := c12Triple(v)
+	if !ok {
+		return c12OldVersions[r.Rng.Intn(len(c12OldVersions))]
+	}
+	for try := 0; try < 8; try++ {
+		switch r.Rng.Intn(6) {
+		case 0, 1:
+			if t[2] > 0 {
+				return fmt.Sprintf("v%d.%d.%d", t[0], t[1], t[2]-1)
+			}
+		case 2:
+			if t[1] > 0 {
+				return fmt.Sprintf("v%d.%d.%d", t[0], t[1]-1, t[2]+99)
+			}
+		case 3:
+			if t[0] > 0 {
+				return fmt.Sprintf("v%d.%d.%d", t[0]-1, t[1]+99, t[2]+99)
+			}
+		case 4:
+			if !pre {
+				return fmt.Sprintf("v%d.%d.%d-%s", t[0], t[1], t[2], []string{"rc1", "0", "alpha", "rc.9", "z"}[r.Rng.Intn(5)])
+			}
+		default:
+			if t[1] > 0 {
+				return fmt.Sprintf("v%d.%d", t[0], t[1]-1)
+			}
+			if t[0] > 0 {
+				return fmt.Sprintf("v%d", t[0]-1)
+			}
+		}
+	}
+	return c12OldVersions[r.Rng.Intn(len(c12OldVersions))]
+}
+
+// c12AtOrAbove: a valid version that is not lower than min.
+func c12AtOrAbove(r *Rec, min string) string {
+	switch r.Rng.Intn(4) {
+	case 0:
+		if semver.IsValid(min) {
+			return min
+		}
+	case 1:
+		if g := c12GoodVersions[r.Rng.Intn(len(c12GoodVersions))]; semver.Compare(g, min) >= 0 {
+			return g
+		}
+	}
+	return c12Above(r, min)
+}
+
+// c12NearMiss spells the valid version `base` the way people and tools do but semver does not
+// accept: without the leading "v", with "V", surrounded by white space, with a "=" / "release-"
+// prefix, a doubled "v", a fourth component, a padded number, a NUL byte, a full-width "v". Every
+// such string is NOT a version for golang.org/x/mod/semver (it sorts below every version), whatever
+// number it spells: as a keep-alive version and as a new minimum it has to be refused. (A few
+// manglings of short forms stay valid — the monitors ask semver, not this function.)
+func c12NearMiss(r *Rec, base string) string {
+	body := strings.TrimPrefix(base, "v")
+	switch r.Rng.Intn(22) {
+	case 0, 1, 2, 3, 4:
+		return body
+	case 5:
+		return "V" + body
+	case 6:
+		return " " + base
+	case 7:
+		return base + " "
+	case 8:
+		return base + "\n"
+	case 9:
+		return "\t" + base
+	case 10:
+		return "=" + base
+	case 11:
+		return "v" + base
+	case 12:
+		return "v " + body
+	case 13:
+		return "v." + body
+	case 14:
+		return base + ".0"
+	case 15:
+		return "v0" + body
+	case 16:
+		return "\x00" + base
+	case 17:
+		return base + "\x00"
+	case 18:
+		return "\uff56" + body
+	case 19:
+		return "release-" + base
+	case 20:
+		return strings.ToUpper(base)
+	default:
+		return strings.Replace(body, ".", ",", 1)
 	}
 }
 
@@ -1168,10 +1449,12 @@ func (g *c12Gen) preAction(h int64) *c12Act {
 				a.addr = v.addr
 			}
 		}
-	case x < 72:
+	case x < 68:
 		a.kind = "setalive"
 		ns := c12NextSweep(h - 1)
 		a.n = []int64{h - 1, h, h + 1, ns - 1, ns, ns + 1, ns + 10, ns + 11, h + int64(r.Intn(45)), h + c12TTL}[r.Intn(10)]
+	case x < 72:
+		g.genesis(a, g.w.version(last.min), g.w.version(last.min), g.target(h))
 	case x < 80:
 		a.kind = "setmin"
 		a.ver = g.w.version(last.min)
@@ -1188,6 +1471,79 @@ func (g *c12Gen) preAction(h int64) *c12Act {
 		a.blob = g.legacyBlob(last)
 	}
 	return a
+}
+
+// genesis: InitGenesis with a current and / or a scheduled requirement (re-import of a state)
+func (g *c12Gen) genesis(a *c12Act, cur, sch string, target uint64) {
+	a.kind, a.ver, a.ver2, a.target = "genesis", cur, sch, target
+	switch g.w.r.Rng.Intn(4) {
+	case 0:
+		a.hasCur = true
+	case 1:
+		a.hasSch = true
+	default:
+		a.hasCur, a.hasSch = true, true
+	}
+}
+
+// minProbe: a directed history on the minimum-version clauses. Step 1: a requirement that spells a
+// version AT OR ABOVE the minimum in force — correctly or as a near miss (no leading "v", white
+// space, …) — goes in through one of the four entry points (immediate, scheduled, proposal,
+// genesis); the schedule falls due. Step 2: relayers just below the highest minimum seen so far
+// send keep-alives and a minimum just below it is proposed. Everything is judged by the monitors.
+func (g *c12Gen) minProbe() {
+	w := g.w
+	r := w.r.Rng
+	pickKind := func(a *c12Act, ver string, target uint64) {
+		switch r.Intn(5) {
+		case 0:
+			a.kind, a.ver = "setmin", ver
+		case 1:
+			a.kind, a.ver, a.target = "schedule", ver, target
+		case 2, 3:
+			a.kind, a.ver, a.target = "proposal", ver, target
+		default:
+			cur := ver
+			if r.Intn(2) == 0 {
+				cur = c12AtOrAbove(w.r, w.be.last().min)
+			}
+			g.genesis(a, cur, ver, target)
+		}
+	}
+	h := w.be.lastHeight() + 1
+	target := uint64(h + 1 + int64(r.Intn(3)))
+	if r.Intn(3) == 0 {
+		target = g.target(h)
+	}
+	ver := c12AtOrAbove(w.r, w.be.last().min)
+	if r.Intn(4) > 0 {
+		ver = c12NearMiss(w.r, ver)
+		w.r.Stat("gen.minprobe.nearmiss")
+	}
+	a := &c12Act{addr: g.pick()}
+	pickKind(a, ver, target)
+	w.runBlock(2*time.Second, []*c12Act{a}, nil, nil)
+	for k := 0; k < 4 && target < 1<<62 && w.be.lastHeight() <= int64(target); k++ {
+		w.runBlock(2*time.Second, nil, nil, nil)
+	}
+	hw := w.hw
+	var txs []*c12Act
+	for n := 1 + r.Intn(2); n > 0; n-- {
+		v := c12Below(w.r, hw)
+		switch r.Intn(6) {
+		case 0:
+			v = c12OldVersions[r.Intn(len(c12OldVersions))]
+		case 1:
+			v = c12NearMiss(w.r, c12AtOrAbove(w.r, hw))
+		case 2:
+			v = hw
+		}
+		txs = append(txs, &c12Act{kind: "keepalive", addr: g.pick(), ver: v})
+	}
+	b := &c12Act{addr: g.pick()}
+	pickKind(b, c12Below(w.r, hw), uint64(w.be.lastHeight()+1))
+	w.runBlock(2*time.Second, []*c12Act{b}, txs, nil)
+	w.r.Stat("gen.minprobe")
 }
 
 func (g *c12Gen) target(h int64) uint64 {
@@ -1317,6 +1673,9 @@ func (g *c12Gen) runCase(blocks int) {
 	if r.Intn(8) == 0 {
 		g.escalate()
 	}
+	if r.Intn(5) == 0 {
+		g.minProbe()
+	}
 	for b := 0; b < blocks; b++ {
 		h := w.be.lastHeight() + 1
 		step := g.steps()
@@ -1418,8 +1777,15 @@ func c12SignStr(c int, a, b string) string {
 func c12PureVersions(r *Rec, n int) {
 	pool := append(append(append([]string{}, c12GoodVersions...), c12BadVersions...), c12OldVersions...)
 	pick := func() string {
-		if r.Rng.Intn(2) == 0 {
+		switch r.Rng.Intn(8) {
+		case 0, 1, 2, 3:
 			return pool[r.Rng.Intn(len(pool))]
+		case 4:
+			// near misses of versions, and the neighbours of a version in the order
+			return c12NearMiss(r, c12GoodVersions[r.Rng.Intn(len(c12GoodVersions))])
+		case 5:
+			g := c12GoodVersions[r.Rng.Intn(len(c12GoodVersions))]
+			return []string{c12Above(r, g), c12Below(r, g)}[r.Rng.Intn(2)]
 		}
 		return c12RandVersion(r)
 	}
@@ -1427,6 +1793,10 @@ func c12PureVersions(r *Rec, n int) {
 		a, b, c := pick(), pick(), pick()
 		if r.Rng.Intn(5) == 0 {
 			b = a
+		}
+		if r.Rng.Intn(6) == 0 {
+			// a version against its own near miss (the same number, spelt without "v", …)
+			b = c12NearMiss(r, a)
 		}
 		ab, bc, ac := semver.Compare(a, b), semver.Compare(b, c), semver.Compare(a, c)
 		r.Op(fmt.Sprintf("vcmp %s %s", c12Hex([]byte(a)), c12Hex([]byte(b))), c12SignStr(ab, a, b))
